@@ -109,6 +109,11 @@ def check(ctx):
     import c08 as _c08
     npol2 = core.adopt(ctx, _c08, lambda o: o["rule"] == "C08.e" and ("abort-helper:" in o["key"] or "runner:" in o["key"]), "C11.polled")
     ctx.floor("C11.polled", npol2, 3, "shared poll-coverage obligations (C08.e)")
+    # ... and a poll reads everything that was detected: the despawn scheduler consumes its whole channel and every checker
+    # is polled (a poll that stops early leaves a detected reaction waiting for a later tree; shared with C08.c / C08.d)
+    npol3 = core.adopt(ctx, _c08, lambda o: (o["rule"] == "C08.c" and "schedule_despawn_reactions" in o["key"]) or
+                       (o["rule"] == "C08.d" and "every-checker-is-polled" in o["key"]), "C11.drained")
+    ctx.floor("C11.drained", npol3, 3, "shared scheduler-drain obligations (C08.c/d)")
     # ... and the collector itself leaves nothing behind: it drains the channel until it is empty, *including* what its own
     # despawns release (an entity whose last handle is held by an entity collected in this pass; shared with C10.e)
     import c10 as _c10
